@@ -71,6 +71,7 @@ class Harness:
         self.expect = attrs.get("expect")              # canary: tag expected to FAIL
         self.extra = attrs.get("extra", "").split() if attrs.get("extra") else []
         self.tags = sorted(set(re.findall(r'"\[(C\d+\.[^\]"]+)\]"', body)))
+        self.xcrate = None
 
     @property
     def safety_tag(self):
@@ -93,7 +94,14 @@ class Unit:
         self.verus = self.cfg.get("verus", [])
         self.trusted = self.cfg.get("trusted_base", [])
         self.functions = self.cfg.get("functions_under_contract", [a["item"] for a in self.anchors])
+        self.xcrates = self.cfg.get("extract_crate", [])
         self.harnesses = []
+        for xc in self.xcrates:
+            txt = open(os.path.join(self.dir, xc["template"])).read()
+            hs = parse_harnesses(self, txt, {"file": "src/lib.rs", "module": ""})
+            for h in hs:
+                h.xcrate = xc
+            self.harnesses += hs
         for sp in self.splices:
             if sp.get("harness"):
                 txt = open(os.path.join(self.dir, sp["harness"])).read()
@@ -297,6 +305,25 @@ def prepare_overlay(units):
     return ov
 
 
+def xcrate_dir(unit, xc):
+    return os.path.join(WORK, "xk", unit.id + "-" + xc.get("name", "x"))
+
+
+def prepare_xcrates(unit):
+    """Scratch Kani crates whose src/lib.rs is the template with //@ extract blocks replaced by the CURRENT text
+    of the named items of REPO (same mechanical extraction as the Verus builder)."""
+    import verus_run
+    for xc in unit.xcrates:
+        d = xcrate_dir(unit, xc)
+        os.makedirs(os.path.join(d, "src"), exist_ok=True)
+        text, extracted = verus_run.build_file(unit, {"file": xc["template"]}, verus=False)
+        write_if_changed(os.path.join(d, "src", "lib.rs"), text)
+        name = "xk_" + re.sub(r"\W", "_", unit.id + "_" + xc.get("name", "x"))
+        write_if_changed(os.path.join(d, "Cargo.toml"),
+                         "[package]\nname = \"%s\"\nversion = \"0.0.0\"\nedition = \"2021\"\n\n[lib]\npath = \"src/lib.rs\"\n\n[dependencies]\n\n[workspace]\n\n[lints.rust]\nunexpected_cfgs = { level = \"allow\", check-cfg = ['cfg(kani)'] }\n" % name)
+        xc["_extracted"] = extracted
+
+
 def kani_env():
     return {"CARGO_NET_OFFLINE": "true", "RUSTFLAGS": "--cap-lints=warn", "CARGO_TARGET_DIR": TARGET,
             "CARGO_TERM_COLOR": "never"}
@@ -318,6 +345,7 @@ class HarnessResult:
         self.covers = {}              # tag -> status
         self.untagged_fail = []       # [(class, description, location)]
         self.inconclusive = []        # reasons
+        self.unsupported = False
         self.n_checks = 0
         self.verif_s = 0.0
         self.wall_s = 0.0
@@ -355,7 +383,10 @@ def parse_kani_output(h, out, res):
                     res.tagged[tag] = status
             continue
         if status == "FAILURE":
-            if "unwinding assertion" in desc or ".unwind." in name:
+            if ".unsupported_construct." in name or ".missing_definition." in name or "is not currently supported by Kani" in desc:
+                res.inconclusive.append("unsupported construct reached: %s @ %s" % (desc[:160], loc[-160:]))
+                res.unsupported = True
+            elif "unwinding assertion" in desc or ".unwind." in name:
                 res.inconclusive.append("unwinding assertion failed at " + loc)
             elif "is not currently supported" in desc or "unsupported" in desc.lower() or "reachable" in desc.lower() and "unsupported" in name:
                 res.inconclusive.append("unsupported construct reached: " + desc[:200])
@@ -364,14 +395,24 @@ def parse_kani_output(h, out, res):
                 res.untagged_fail.append((name, desc, loc))
             else:
                 res.untagged_fail.append((name, desc, loc))
+    if res.unsupported:
+        # everything after a missing foreign function is garbage (CBMC havocs): never a violation
+        res.untagged_fail = []
+        res.tagged = {k: ("UNDETERMINED" if v == "FAILURE" else v) for k, v in res.tagged.items()}
     return res
 
 
 def run_harness(ov, h, playback=False):
     res = HarnessResult(h)
     u = h.unit
-    cmd = ["cargo", "kani", "-p", u.package, "--harness", exact_name(h), "--exact", "--output-format=regular",
-           "-Z", "function-contracts", "-Z", "stubbing"] + u.cargo_args + h.extra
+    cwd = ov
+    if h.xcrate is not None:
+        cwd = xcrate_dir(u, h.xcrate)
+        cmd = ["cargo", "kani", "--harness", exact_name(h), "--exact", "--output-format=regular",
+               "-Z", "function-contracts", "-Z", "stubbing"] + h.extra
+    else:
+        cmd = ["cargo", "kani", "-p", u.package, "--harness", exact_name(h), "--exact", "--output-format=regular",
+               "-Z", "function-contracts", "-Z", "stubbing"] + u.cargo_args + h.extra
     if h.solver:
         cmd += ["--solver", h.solver]
         if h.solver not in ("minisat", "cadical") and "-Z unstable-options" not in " ".join(cmd):
@@ -382,7 +423,7 @@ def run_harness(ov, h, playback=False):
     t0 = time.time()
     try:
         p = subprocess.run(["bash", "-c", "ulimit -v %d; exec \"$@\"" % (MEM_LIMIT_KB * 2), "bash"] + cmd,
-                           cwd=ov, env={**os.environ, **kani_env()}, stdout=subprocess.PIPE,
+                           cwd=cwd, env={**os.environ, **kani_env()}, stdout=subprocess.PIPE,
                            stderr=subprocess.STDOUT, text=True, errors="replace", timeout=h.timeout)
         out = p.stdout
     except subprocess.TimeoutExpired as e:
@@ -397,6 +438,8 @@ def run_harness(ov, h, playback=False):
 
 
 def exact_name(h):
+    if h.xcrate is not None:
+        return h.name
     mp = module_path(h.file)
     return "::".join([x for x in (mp, h.module, h.name) if x])
 
@@ -440,17 +483,23 @@ def extract_playback_tests(out):
     return tests
 
 
-def native_playback(ov, unit, harness_file_rel, module, test_src, test_name, timeout=3600):
+def native_playback(ov, unit, harness_file_rel, module, test_src, test_name, timeout=3600, xcrate=None):
     """Append the generated #[test] to the spliced harness module and run it natively."""
+    if xcrate is not None:
+        ov = xcrate_dir(unit, xcrate)
     p = os.path.join(ov, harness_file_rel)
     s = open(p).read().rstrip()
-    assert s.endswith("}")
-    s2 = s[:-1] + "\n" + test_src + "\n}\n"
+    if xcrate is not None:
+        s2 = s + "\n#[cfg(kani)]\n" + test_src + "\n"
+    else:
+        assert s.endswith("}")
+        s2 = s[:-1] + "\n" + test_src + "\n}\n"
     open(p, "w").write(s2)
     try:
-        cmd = ["cargo", "kani", "playback", "-Z", "concrete-playback", "-p", unit.package] + unit.cargo_args + unit.playback_cargo_args + ["--", test_name, "--exact"]
-        # `--exact` needs the full path; fall back to substring match
-        cmd = cmd[:-1]
+        if xcrate is not None:
+            cmd = ["cargo", "kani", "playback", "-Z", "concrete-playback", "--", test_name]
+        else:
+            cmd = ["cargo", "kani", "playback", "-Z", "concrete-playback", "-p", unit.package] + unit.cargo_args + unit.playback_cargo_args + ["--", test_name]
         r = sh(cmd, cwd=ov, env={**kani_env(), "RUST_BACKTRACE": "0"}, timeout=timeout)
         return r.returncode, r.stdout
     finally:
